@@ -15,3 +15,148 @@ Theorem C18_written_storages_allocated_in_call :
   forall user tr1 tr2 s v, trace_ok user (tr1 ++ Write s v :: tr2) = true -> In (Alloc s) tr1.
 Proof. exact trace_ok_writes_fresh. Qed.
 Print Assumptions C18_written_storages_allocated_in_call.
+
+(** * The clone clause: heap model of the container layer (Model/Heap.v)
+    "In-place operations on a clone of a PatternedTensor or MultiTensor never change the source." *)
+Require Import Fggs.Model.Heap Fggs.Proofs.Heap_frame Fggs.Proofs.Heap_clone Fggs.Proofs.Heap_mclone.
+
+(** (d) frame: an operation mutates only the objects [mutates st o] says (a function of the
+    operation and the state it starts in: its target argument and, for MultiTensor.copy_, the
+    elements of the target), writes only storages of PatternedTensors among them, keeps or renews
+    the storage of every old object, and the objects it creates have a new storage or the storage
+    of one of [vsrcs o] (the argument of a view operation) *)
+Theorem C18_frame :
+  forall st o st' out0, step st o = (st', out0) -> frame_rel (mutates st o) (vsrcs o) st st'.
+Proof. exact step_frame. Qed.
+Print Assumptions C18_frame.
+
+(** ... hence the denotation (physical values, layout, default; for a MultiTensor: of every
+    element) of an object that is neither a target nor shares a storage with one is unchanged *)
+Theorem C18_frame_denotation :
+  forall st o st' out0 y,
+    step st o = (st', out0) -> valid st y ->
+    (forall r, In r (reach_objs st y) -> ~ In r (mutates st o)) ->
+    (forall s, In s (sids_of st (reach_objs st y)) -> ~ In s (sids_of st (mutates st o))) ->
+    den st' y = den st y.
+Proof. exact step_frame_den. Qed.
+Print Assumptions C18_frame_denotation.
+
+(** (a) for every state, every x, c := x.clone(), and EVERY finite sequence of operations that
+    respects the ownership discipline [owned_run] (each operation mutates only objects made by
+    the clone or later, not counting views of older objects: in-place maps on c, copy_ into c,
+    views of c and in-place operations on them, ...), every object that existed before the clone
+    -- in particular x -- has the denotation it had *)
+Theorem C18_clone_independent :
+  forall st x st0 c ops st',
+    step st (OClone x) = (st0, ORefs [c]) ->
+    owned_run [c] st0 ops = Some st' ->
+    forall y, y < length (st_objs st) ->
+              closed (length (st_objs st)) (length (st_store st)) st y ->
+              den st' y = den st y.
+Proof. exact clone_independent. Qed.
+Print Assumptions C18_clone_independent.
+
+Theorem C18_clone_source_unchanged :
+  forall st x st0 c ops st' p,
+    step st (OClone x) = (st0, ORefs [c]) -> owned_run [c] st0 ops = Some st' ->
+    get_pt st x = Some p -> pt_sid p < length (st_store st) ->
+    den st' x = den st x.
+Proof. exact clone_source_unchanged. Qed.
+Print Assumptions C18_clone_source_unchanged.
+
+(** the clone denotes what the source denotes *)
+Theorem C18_clone_equal :
+  forall st x st0 c, step st (OClone x) = (st0, ORefs [c]) -> den st0 c = den st x.
+Proof. exact clone_equal. Qed.
+Print Assumptions C18_clone_equal.
+
+(** (b) the same for MultiTensor.clone; the owned set is the clone and the element objects it made *)
+Theorem C18_mclone_independent :
+  forall st x st0 c ops st',
+    step st (OMClone x) = (st0, ORefs [c]) ->
+    owned_run (seq c (length (st_objs st0) - c)) st0 ops = Some st' ->
+    forall y, y < length (st_objs st) ->
+              closed (length (st_objs st)) (length (st_store st)) st y ->
+              den st' y = den st y.
+Proof. exact mclone_independent. Qed.
+Print Assumptions C18_mclone_independent.
+
+(** the clone is deep: every element of the clone is an object made by the clone (so writing INTO
+    the elements of the clone is inside the discipline) *)
+Theorem C18_mclone_deep :
+  forall st x st0 c,
+    step st (OMClone x) = (st0, ORefs [c]) ->
+    c = length (st_objs st) /\
+    exists d, get_mt st0 c = Some d /\
+              forall e, In e (map snd d) -> In e (seq c (length (st_objs st0) - c)) /\ e <> c.
+Proof. exact mclone_deep. Qed.
+Print Assumptions C18_mclone_deep.
+
+(** the clone of a MultiTensor denotes what the source denotes: same keys in the same order, every
+    element with the denotation of the source's element (source with distinct keys whose elements
+    and their storages exist) *)
+Theorem C18_mclone_equal :
+  forall st x dx st0 c,
+    get_mt st x = Some dx -> NoDup (map fst dx) ->
+    closed (length (st_objs st)) (length (st_store st)) st x ->
+    step st (OMClone x) = (st0, ORefs [c]) -> den st0 c = den st x.
+Proof. exact mclone_equal. Qed.
+Print Assumptions C18_mclone_equal.
+
+(** what the seeded change seeded/C18-d does ([c = MultiTensor(...); c += self]) is refuted: the
+    elements are shared and copy_ into the "clone" changes the source *)
+Theorem C18_shallow_clone_refuted :
+  exists st x st0 c other st' o,
+    mclone_shallow st x = (st0, ORefs [c]) /\ mt_elems st0 c = mt_elems st x /\
+    step st0 (OMCopy c other) = (st', o) /\ den st' x <> den st x.
+Proof. exact shallow_clone_refuted. Qed.
+Print Assumptions C18_shallow_clone_refuted.
+
+(** (c) views DO share: with a view in the place of the clone the conclusion fails *)
+Theorem C18_view_shares :
+  exists st x lay st0 c ops st',
+    step st (OView x lay) = (st0, ORefs [c]) /\ owned_run [c] st0 ops = Some st' /\
+    den st' x <> den st x.
+Proof. exact view_shares. Qed.
+Print Assumptions C18_view_shares.
+
+Theorem C18_getitem_shares :
+  exists st x sel lay st0 c ops st',
+    step st (OGetItem x sel lay) = (st0, ORefs [c]) /\ owned_run [c] st0 ops = Some st' /\
+    den st' x <> den st x.
+Proof. exact getitem_shares. Qed.
+Print Assumptions C18_getitem_shares.
+
+Theorem C18_iter_shares :
+  exists st x items st0 c1 c2 ops st',
+    step st (OIter x None items) = (st0, ORefs [c1; c2]) /\ owned_run [c1; c2] st0 ops = Some st' /\
+    den st' x <> den st x.
+Proof. exact iter_shares. Qed.
+Print Assumptions C18_iter_shares.
+
+Theorem C18_to_same_dtype_shares :
+  exists st x st0 c ops st',
+    step st (OTo x 0) = (st0, ORefs [c]) /\ owned_run [c] st0 ops = Some st' /\
+    den st' x <> den st x.
+Proof. exact to_same_dtype_shares. Qed.
+Print Assumptions C18_to_same_dtype_shares.
+
+Theorem C18_copy_into_view_writes_source :
+  exists st x y lay st0 c st' o,
+    step st (OView x lay) = (st0, ORefs [c]) /\ step st0 (OCopy c y) = (st', o) /\
+    den st' x <> den st x.
+Proof. exact copy_into_view_writes_source. Qed.
+Print Assumptions C18_copy_into_view_writes_source.
+
+Theorem C18_default_to_same_returns_self :
+  forall st x p perm, get_pt st x = Some p -> step st (ODefaultTo x (pt_dflt p) perm) = (st, ORefs [x]).
+Proof. exact default_to_same_returns_self. Qed.
+Print Assumptions C18_default_to_same_returns_self.
+
+(** add_single with a new key stores the given object: a later copy_ into the MultiTensor writes it *)
+Theorem C18_add_single_aliases :
+  exists st m k x prm st1 o1 other st2 o2,
+    step st (OMAddSingle m k x prm) = (st1, o1) /\ get_mt st1 m = Some [(k, x)] /\
+    step st1 (OMCopy m other) = (st2, o2) /\ den st2 x <> den st x.
+Proof. exact add_single_aliases. Qed.
+Print Assumptions C18_add_single_aliases.
